@@ -85,10 +85,12 @@ class _Anno:
         return {'T0': 0, 'T1': 1}
 
 
-def _run(tool, ev, outcome, gene, skip_failed):
+def _run(tool, ev, outcome, gene, skip_failed, thr=None, fields=None):
     mod = MODS[tool]
     n = len(ev)
     recs = [_Rec(i, ev[i] or tool == 3, outcome[i], gene[i]) for i in range(n)]
+    for r in recs:
+        r.__dict__.update(fields or {})
     written = []
     holder = {}
     real_tally = mod.TallyTable
@@ -112,6 +114,7 @@ def _run(tool, ev, outcome, gene, skip_failed):
                               skip_failed=skip_failed, min_est_j=1, max_common_mapping=0,
                               min_spanning_unique=1, min_split_read1=1, min_split_read2=1,
                               min_confidence='medium', command='x', source='s', index_dir=None)
+    args.__dict__.update(thr or {})
     pmod = {0: 'STARFusionParser', 1: 'FusionCatcherParser', 2: 'ArribaParser', 3: None}[tool]
     patches = [(mod, 'get_logger', lambda: NullLogger()), (mod, 'TallyTable', Tally),
                (mod.common, 'validate_file_format', lambda *a, **k: None),
@@ -242,3 +245,41 @@ def c07_loop_vep(o0: int, o1: int, o2: int, g0: int, g1: int, g2: int, skip_fail
     out = [m[concretize(o, 0, 3)] for o in (o0, o1, o2)]
     gene = [concretize(g, 0, 1) for g in (g0, g1, g2)]
     return _check(3, [True] * 3, out, gene, skip_failed)
+
+
+
+# --- C15: "records failing the evidence thresholds ... are skipped and counted" (STAR-Fusion, FusionCatcher loops)
+def _thresholds(tool, est_j, common, spanning, min_est_j, max_common, min_spanning):
+    fields = {'est_j': est_j, 'counts_of_common_mapping_reads': common, 'spanning_unique_reads': spanning}
+    thr = {'min_est_j': min_est_j, 'max_common_mapping': max_common, 'min_spanning_unique': min_spanning}
+    written, t = _run(tool, [True], [0], [0], False, thr, fields)
+    if tool == 0:
+        ok = est_j >= min_est_j
+    else:
+        ok = common <= max_common and spanning >= min_spanning
+    if ok:
+        if written != [0] or t.succeed != 1 or t.skipped.total != 0:
+            return -1              # a record meeting the thresholds was not converted
+    else:
+        if written:
+            return -2              # a record failing an evidence threshold was converted and written
+        if t.skipped.insufficient_evidence != 1 or t.skipped.total != 1 or t.succeed != 0:
+            return -3              # skipped record not counted as insufficient evidence
+    if t.total != 1:
+        return -3
+    return OK
+
+
+@cond('C15', bounds='parseSTARFusion / parseFusionCatcher command loops, one record: est_J, common-mapping and spanning-'
+      'unique counts and all three thresholds UNBOUNDED symbolic integers',
+      encodes=['moPepGen.cli.parse_star_fusion.parse_star_fusion', 'moPepGen.cli.parse_fusion_catcher.parse_fusion_catcher'],
+      stubs=['parsers\' parse(), reference loading, GVF writing, record conversion (always succeeds)'],
+      codes={-1: 'a record meeting the evidence thresholds was not converted',
+             -2: 'a record failing an evidence threshold was converted and written',
+             -3: 'skipped record not counted (insufficient evidence)'}, timeout=300)
+def c15_cli_thresholds(fcatcher: bool, est_j: int, common: int, spanning: int, min_est_j: int, max_common: int,
+                       min_spanning: int) -> int:
+    """
+    post: _ >= 0
+    """
+    return _thresholds(1 if fcatcher else 0, est_j, common, spanning, min_est_j, max_common, min_spanning)
